@@ -85,7 +85,7 @@ Proof.
   - (* eig_shift *) intros A C vecs e _ Hh. brute e; fin.
   - (* svd_of_eig *) intros A e Hh. brute e; fin.
   - (* svd_shift *) intros A C u _ Hh. brute u; fin.
-  - (* diagz_lanczos *) intros A n r v E. simpl in E. destruct (Nat.eqb n 1); inversion E; subst. fin.
+  - (* diagz_lanczos *) intros A n r v E. simpl in E. inversion E; subst. fin.
   - (* cholop *) intros A c Hh. brute c; fin.
   - (* root_eig *) intros A e Hh. brute e; fin.
   - (* root_svd *) intros A u Hh. brute u; fin.
@@ -454,7 +454,8 @@ Qed.
    the factors' caches are written), a derived operator, an add_low_rank whose roots are compatible factor by factor *)
 Definition pf_kron (l : list nat) : profile :=
   {| pf_td_name := Some "LinearOperator.to_dense"; pf_td_kids := []; pf_chol_ignore := false; pf_eig := EigKron l;
-     pf_cm_root := None; pf_precond := false; pf_sum := false; pf_iqld_to := false; pf_deleg := None |}.
+     pf_cm_root := None; pf_precond := false; pf_sum := false; pf_iqld_to := false; pf_deleg := None;
+     pf_iqld_norhs_raises := false; pf_iqld_nologdet_raises := false; pf_lanczos_1x1_raises := true |}.
 Definition heap_kron : heap sym_kern :=
   Build_heap sym_kern [dense_obj 2 10; dense_obj 2 11; Build_obj sym_kern (pf_kron [0; 1]) 4 true (SBase 12) None None] 0.
 Definition hist_kron : list (event sym_kern) :=
@@ -502,7 +503,8 @@ Proof. split; vm_compute; reflexivity. Qed.
    then queried itself, and both under a second settings regime *)
 Definition pf_blockdiag (c : nat) : profile :=
   {| pf_td_name := Some "LinearOperator.to_dense"; pf_td_kids := []; pf_chol_ignore := false; pf_eig := EigKron [c];
-     pf_cm_root := None; pf_precond := false; pf_sum := false; pf_iqld_to := false; pf_deleg := Some true |}.
+     pf_cm_root := None; pf_precond := false; pf_sum := false; pf_iqld_to := false; pf_deleg := Some true;
+     pf_iqld_norhs_raises := true; pf_iqld_nologdet_raises := true; pf_lanczos_1x1_raises := true |}.
 Definition heap_block : heap sym_kern :=
   Build_heap sym_kern [dense_obj 2 20; Build_obj sym_kern (pf_blockdiag 0) 4 true (SBase 21) None None] 0.
 Definition hist_block : list (event sym_kern) :=
